@@ -409,3 +409,73 @@ package fpgo
 //@   prop C20
 //@   requires currySelf != nil
 //@   ensures def: r0 == currySelf.result
+
+// ===================================================================================================
+// C20 - pattern matching.  What each pattern kind's test accepts (Matches), and what Apply does (exactly one call of the
+// pattern's effect on the value, returning its result).  Calls on Maybe values are dispatched to the someDef / None
+// contracts of C01.
+//@ func (KindPatternDef).Matches
+//@   prop C20
+//@   opt dispatch=force
+//@   ensures def: r0 == (!absent(value) && rkind(value) == patternSelf.kind)
+//@ func (EqualPatternDef).Matches
+//@   prop C20
+//@   ensures def: r0 == (patternSelf.value == value)
+//@ func (RegexPatternDef).Matches
+//@   prop C20
+//@   opt dispatch=force
+//@   ensures def: r0 == (!absent(value) && rkind(value) == 24 && regexErr(patternSelf.pattern) == nil && regexMatch(patternSelf.pattern, strof(value)))
+//@ func (OtherwisePatternDef).Matches
+//@   prop C20
+//@   ensures def: r0 == true
+
+//@ func (KindPatternDef).Apply
+//@   prop C20
+//@   opt callbacks=effectful
+//@   opt effects=trace
+//@   requires patternSelf.effect != nil
+//@   ensures once: tr_len == old(tr_len)+1 && tr_kind[old(tr_len)] == 1 && tr_fn[old(tr_len)] == patternSelf.effect && tr_arg[old(tr_len)] == value && r0 == tr_res[old(tr_len)]
+//@ func (CompTypePatternDef).Apply
+//@   prop C20
+//@   opt callbacks=effectful
+//@   opt effects=trace
+//@   requires patternSelf.effect != nil
+//@   ensures once: tr_len == old(tr_len)+1 && tr_kind[old(tr_len)] == 1 && tr_fn[old(tr_len)] == patternSelf.effect && tr_arg[old(tr_len)] == value && r0 == tr_res[old(tr_len)]
+//@ func (EqualPatternDef).Apply
+//@   prop C20
+//@   opt callbacks=effectful
+//@   opt effects=trace
+//@   requires patternSelf.effect != nil
+//@   ensures once: tr_len == old(tr_len)+1 && tr_kind[old(tr_len)] == 1 && tr_fn[old(tr_len)] == patternSelf.effect && tr_arg[old(tr_len)] == value && r0 == tr_res[old(tr_len)]
+//@ func (RegexPatternDef).Apply
+//@   prop C20
+//@   opt callbacks=effectful
+//@   opt effects=trace
+//@   requires patternSelf.effect != nil
+//@   ensures once: tr_len == old(tr_len)+1 && tr_kind[old(tr_len)] == 1 && tr_fn[old(tr_len)] == patternSelf.effect && tr_arg[old(tr_len)] == value && r0 == tr_res[old(tr_len)]
+//@ func (OtherwisePatternDef).Apply
+//@   prop C20
+//@   opt callbacks=effectful
+//@   opt effects=trace
+//@   requires patternSelf.effect != nil
+//@   ensures once: tr_len == old(tr_len)+1 && tr_kind[old(tr_len)] == 1 && tr_fn[old(tr_len)] == patternSelf.effect && tr_arg[old(tr_len)] == value && r0 == tr_res[old(tr_len)]
+
+// constructors record exactly what they were given
+//@ func InCaseOfKind
+//@   prop C20
+//@   ensures made: isa(r0, KindPatternDef) && as(r0, KindPatternDef).kind == kind && as(r0, KindPatternDef).effect == effect
+//@ func InCaseOfSumType
+//@   prop C20
+//@   ensures made: isa(r0, CompTypePatternDef) && as(r0, CompTypePatternDef).compType == compType && as(r0, CompTypePatternDef).effect == effect
+//@ func InCaseOfEqual
+//@   prop C20
+//@   ensures made: isa(r0, EqualPatternDef) && as(r0, EqualPatternDef).value == value && as(r0, EqualPatternDef).effect == effect
+//@ func InCaseOfRegex
+//@   prop C20
+//@   ensures made: isa(r0, RegexPatternDef) && as(r0, RegexPatternDef).pattern == pattern && as(r0, RegexPatternDef).effect == effect
+//@ func Otherwise
+//@   prop C20
+//@   ensures made: isa(r0, OtherwisePatternDef) && as(r0, OtherwisePatternDef).effect == effect
+//@ func DefPattern
+//@   prop C20
+//@   ensures made: r0.patterns == patterns
